@@ -1,20 +1,21 @@
 #!/bin/bash
-# round 3: tools/seedbatch3.sh <logfile> Cxx [Cxx...]   (seeds in /tmp/seed3/Cxx/out/1..3, demo <cxx>_r3_demo<k>;
+# round 3 (or ROUND=4 ...): tools/seedbatch3.sh <logfile> Cxx [Cxx...]   (seeds in /tmp/seed$R/Cxx/out/1..3, demo <cxx>_r3_demo<k>;
 # k = 1, 2 break the property, k = 3 is a BENIGN change: expected exit 0 or at most "no-failing-input-found")
 LOG=$1; shift
+R=${ROUND:-3}
 for P in "$@"; do
   L=$(echo $P | tr A-Z a-z)
   F=""
   [ "$P" = "C19" ] && F=rayon
   [ "$P" = "C20" ] && F=kurbo
   for k in 1 2 3; do
-    [ -d /tmp/seed3/$P/out/$k ] || continue
-    D=${L}_r3_demo$k
+    [ -d /tmp/seed$R/$P/out/$k ] || continue
+    D=${L}_r${R}_demo$k
     FF=$F
-    grep -q -- "--features kurbo" /tmp/seed3/$P/out/$k/README.md 2>/dev/null && FF=kurbo
-    grep -q -- "--features rayon" /tmp/seed3/$P/out/$k/README.md 2>/dev/null && FF=rayon
-    echo "===== $P seed r3-$k ($D) features=$FF" >> "$LOG"
-    FEATURES=$FF /verif/tools/seedtest.sh /tmp/seed3/$P/out/$k "$D" $P 2>&1 | grep -E "^--- demo|test result|VIOLATION|^\[$P\]|PATCH|error" | grep -v "155 passed\|19 passed\|5 passed; 0 failed" | cut -c1-1500 >> "$LOG"
+    grep -q -- "--features kurbo" /tmp/seed$R/$P/out/$k/README.md 2>/dev/null && FF=kurbo
+    grep -q -- "--features rayon" /tmp/seed$R/$P/out/$k/README.md 2>/dev/null && FF=rayon
+    echo "===== $P seed r$R-$k ($D) features=$FF" >> "$LOG"
+    FEATURES=$FF /verif/tools/seedtest.sh /tmp/seed$R/$P/out/$k "$D" $P 2>&1 | grep -E "^--- demo|test result|VIOLATION|^\[$P\]|PATCH|error" | grep -v "155 passed\|19 passed\|5 passed; 0 failed" | cut -c1-1500 >> "$LOG"
   done
 done
 echo "BATCH DONE" >> "$LOG"
